@@ -1,10 +1,12 @@
 package router
 
 import (
+	"bytes"
 	"context"
 	"encoding/binary"
 	"errors"
 	"fmt"
+	"io"
 	"net"
 	"net/http"
 	"net/netip"
@@ -52,8 +54,14 @@ func newRouterCmd() *cobra.Command {
 
 			cfg := new(Config)
 			m := make(map[string]any)
-			if err := yaml.Unmarshal(b, m); err != nil {
+			yamlDecoder := yaml.NewDecoder(bytes.NewReader(b))
+			if err := yamlDecoder.Decode(&m); err != nil {
 				logger.Fatal().Err(err).Msg("failed to decode yaml config")
+			}
+			// Only one document is used. Do not silently ignore what comes
+			// after a "---" line.
+			if err := yamlDecoder.Decode(new(any)); !errors.Is(err, io.EOF) {
+				logger.Fatal().Err(err).Msg("config file must contain exactly one yaml document")
 			}
 			decoder, err := mapstructure.NewDecoder(&mapstructure.DecoderConfig{
 				ErrorUnused: true,
